@@ -92,7 +92,7 @@ def coq_csv(case, obs):
     for (x, y, z), s1, ln, b, s2 in zip(case['pts'], obs['stamps'], lines, obs['back'], obs['back_stamps']):
         rows.append('(%s, %s, %s, %s, "%s", (%s, %s, %s, %s))' % (q(x), q(y), q(z), st(s1), ln.replace('"', '""'), q(b[0]), q(b[1]), q(b[2]), st(s2)))
     sep = '"%s"%%char' % case['sep'] if case['sep'] != '\t' else '(ascii_of_nat 9)'
-    return '(%d%%nat, %d%%nat, %d%%nat, %d%%nat, %s, %s, %s, %s)' % (w, p, e, nn, '(Some %d%%nat)' % u if u >= 0 else 'None', '(Some %d%%nat)' % t if t >= 0 else 'None', sep, coq_list(rows))
+    return '(%d%%nat, "%s", (%d%%nat, %d%%nat, %d%%nat, %d%%nat, %s, %s, %s, %s))' % (case['h'], obs['text'].replace('"', '""'), w, p, e, nn, '(Some %d%%nat)' % u if u >= 0 else 'None', '(Some %d%%nat)' % t if t >= 0 else 'None', sep, coq_list(rows))
 
 
 def oracle_csv(case, obs):
@@ -119,8 +119,11 @@ CSV_CHECK = '''Definition near (o : option Q) (b : Q) : bool :=           (* flo
   match o with Some v => Qle_bool (Qabs (v - b) * (10 ^ 15 # 1)) (Qabs v) | None => false end.
 Definition stamp_eqb (a b : stamp) : bool :=
   Nat.eqb (day a) (day b) && Nat.eqb (month a) (month b) && Nat.eqb (year a) (year b) && Nat.eqb (hour a) (hour b) && Nat.eqb (minute a) (minute b) && Nat.eqb (sec a) (sec b).
-Definition ok (c : nat * nat * nat * nat * option nat * option nat * ascii * list (Q * Q * Q * stamp * string * (Q * Q * Q * stamp))) : bool :=
-  let '(w, p, idE, idN, idU, idT, sep, rows) := c in
+Fixpoint all_eq (a b : list string) : bool := match a, b with [], [] => true | x :: a', y :: b' => (if string_dec x y then true else false) && all_eq a' b' | _, _ => false end.
+Definition ok (c : nat * string * (nat * nat * nat * nat * option nat * option nat * ascii * list (Q * Q * Q * stamp * string * (Q * Q * Q * stamp)))) : bool :=
+  let '(h, filetext, (w, p, idE, idN, idU, idT, sep, rows)) := c in
+  (* the reader's line loop on the file the implementation wrote: exactly the observation lines, in order *)
+  all_eq (read_file h filetext) (map (fun '(_, _, _, _, text, _) => text) rows) &&
   forallb (fun '(x, y, z, t, text, (bx, by_, bz, bt)) =>
     (if string_dec (line w p idE idN idU idT (String sep "") x y z t) text then true else false)        (* writer *)
     && (let fs := read_fields sep text in                                                                (* reader, on the text the implementation wrote *)
@@ -134,7 +137,7 @@ S_CSV = Stream(
           'every permutation of id_E id_N id_U id_T and every presence pattern, separators , ; | tab, h=0; observed: the file text (compared byte for byte with the model\'s writer) and '
           'the track read back with the same parameters; non-trivial = at least 2 observations'),
     imports='From Coq Require Import List String Ascii ZArith QArith Qabs Bool.\nImport ListNotations.\nFrom TL Require Import Model.TextFmt Proofs.Columns Proofs.TimeText Model.CsvText.\nClose Scope Z_scope.\nOpen Scope string_scope.',
-    case_type='nat * nat * nat * nat * option nat * option nat * ascii * list (Q * Q * Q * stamp * string * (Q * Q * Q * stamp))', check_def=CSV_CHECK,
+    case_type='nat * string * (nat * nat * nat * nat * option nat * option nat * ascii * list (Q * Q * Q * stamp * string * (Q * Q * Q * stamp)))', check_def=CSV_CHECK,
     generate=gen_csv, run_impl=run_csv, coq_case=coq_csv, oracle=oracle_csv, finding_key=finding_csv,
     nontrivial=lambda c, o: len(c['pts']) >= 2, klass=lambda c, o: '%s,ids=%s' % (c['srid'], ''.join('-' if i < 0 else str(i) for i in c['ids'])))
 
